@@ -115,7 +115,7 @@ def run_equivalent_one(eq):
 
 def run_equivalent(a):
     from equivalent import E
-    eqs = [e for e in E if not a.only or a.only in e['id']]
+    eqs = [e for e in E if not a.only or any(x in e['id'] for x in a.only.split(','))]
     bad = []
     with concurrent.futures.ThreadPoolExecutor(max_workers=a.jobs) as ex:
         for eid, alarms in ex.map(run_equivalent_one, eqs):
@@ -140,7 +140,7 @@ def main():
     ap.add_argument('--only')
     ap.add_argument('--jobs', type=int, default=8)
     a = ap.parse_args()
-    muts = [m for m in M if (not a.prop or a.prop in m['props']) and (not a.only or a.only in m['id'])]
+    muts = [m for m in M if (not a.prop or a.prop in m['props']) and (not a.only or any(x in m['id'] for x in a.only.split(',')))]
     if a.equivalent:
         sys.exit(run_equivalent(a))
     if a.verify:
